@@ -4,7 +4,7 @@ Tie: real learn_spn runs with recording wrappers around the row splitter, the co
 the leaf learner (built-in and adversarial ones that fail on some slices); the recorded answers
 drive the Gallina machine (engine E1) and the resulting arena is compared node for node (kinds,
 scopes, child order, weights, rows and columns of every leaf) with the returned circuit."""
-import json
+import json, warnings
 from fractions import Fraction
 import numpy as np
 from . import common as C
@@ -186,6 +186,64 @@ def configs(rs, n, tier):
     return out
 
 
+def classifier_stage(rep, rs, tier):
+    """the classifier wrapper: one branch per class value, root weights = class frequencies, every branch fitted on the rows
+    of its class only — for every position of the class column (first, middle, last, negative index)."""
+    from deeprob.spn.learning.wrappers import learn_classifier
+    from deeprob.spn.structure.leaf import Categorical
+    from deeprob.spn.structure.node import Sum
+    from deeprob.spn.algorithms.inference import log_likelihood
+    import io, contextlib
+    n_done = 0; n_bad = 0
+    for i in range(12 if tier == "quick" else 80):
+        kind = ["bin", "cat", "bin"][i % 3]
+        n = int(rs.choice([30, 80, 160])); d = int(rs.randint(2, 5))
+        X, dists, doms = gen_data(rs, kind, n, d)
+        k = int(rs.choice([2, 3]))
+        y = np.minimum(k - 1, (rs.rand(n) < 0.35).astype(np.int64) + (X[:, 0] > np.median(X[:, 0])).astype(np.int64)).astype(np.float32)
+        labels = [float(c) for c in (np.array([0, 1, 2]) if rs.rand() < 0.6 else np.array([1, 3, 4]))[:k]]
+        y = np.array(labels, dtype=np.float32)[y.astype(int)]
+        pos = [0, d // 2, d, -1, -(d + 1)][i % 5]                      # position of the class column in the training matrix
+        at = pos if pos >= 0 else d + 1 + pos
+        Xy = np.insert(X, at, y, axis=1)
+        ds = dists[:at] + [Categorical] + dists[at:]; dm = doms[:at] + [sorted(set(labels))] + doms[at:]
+        try:
+            with warnings.catch_warnings(), contextlib.redirect_stdout(io.StringIO()):
+                warnings.simplefilter("ignore")
+                root = learn_classifier(Xy, ds, dm, class_idx=pos, min_rows_slice=int(rs.choice([8, 32])), verbose=False,
+                                        random_state=int(rs.randint(2 ** 31 - 1)))
+        except Exception as e:
+            continue                                                     # learners may refuse a configuration
+        n_done += 1
+        classes, counts = np.unique(y, return_counts=True)
+        bad = None
+        if not isinstance(root, Sum) or len(root.children) != len(classes):
+            bad = dict(what="root is not a sum with one child per class", children=len(getattr(root, "children", [])), classes=len(classes))
+        else:
+            w = [float(t) for t in root.weights]; fr = [float(c) / n for c in counts]
+            if max(abs(a - b) for a, b in zip(w, fr)) > 1e-6:
+                bad = dict(what="root weights are not the class frequencies", weights=w, class_frequencies=fr)
+            else:
+                # branch c is fitted on the rows of class c only: it gives probability zero to every other class label
+                for ci, (c, br) in enumerate(zip(classes, root.children)):
+                    probe = np.full((len(classes), Xy.shape[1]), np.nan, dtype=np.float32); probe[:, at] = classes
+                    import copy as _copy
+                    from deeprob.spn.structure.node import assign_ids as _assign_ids
+                    b2 = _copy.deepcopy(br); _assign_ids(b2)               # a branch alone is not labelled from zero
+                    with np.errstate(all="ignore"):
+                        ll = np.asarray(log_likelihood(b2, probe)).reshape(-1)
+                    if not all(ll[ci] > ll[j] + 0.5 for j in range(len(classes)) if j != ci):   # leaves are Laplace-smoothed: dominance, not zero
+                        bad = dict(what="a class branch is not fitted on the rows of its own class only", branch=int(ci),
+                                   class_value=float(c), log_marginal_of_each_class_label=[float(t) for t in ll]); break
+        rep.count(dict(classifier=i, pos=pos, n=n, d=d), nontrivial=True)
+        if bad:
+            n_bad += 1
+            if n_bad <= 3:
+                rep.violation(dict(kind="classifier-wrapper", class_idx=pos, data=Xy.tolist() if n <= 40 else Xy[:40].tolist(),
+                                   rows=int(n), failure=bad), True)
+    rep.cov["classifier_wrapper_cases"] = n_done
+
+
 def main(tier, seed, replay=None, pid=PID):
     rep = C.Report(pid, tier, seed)
     rs = np.random.RandomState(seed % (2 ** 31))
@@ -280,5 +338,7 @@ def main(tier, seed, replay=None, pid=PID):
                        "gvs,rgvs,wrgvs,ebvs,gbvs,rdc,random + adversarial (random labels, 30% single-cluster answers => deferred tasks) x leaf learners "
                        "mle,isotonic,binary-clt x thresholds min_rows 1-40, min_cols 1-3; one evaluation = one run replayed in the Gallina machine; "
                        "non-trivial = more than one task; distinct by configuration + operation trace")
+    if pid == PID:
+        classifier_stage(rep, rs, tier)
     C.clean_gen(pid)
     return rep.finish("proof")
